@@ -14,6 +14,7 @@ Theorem C12_pooled_object_fresh : forall pool tag, Forall (fun o => clean o = tr
 Proof. exact new_vstruct_fresh. Qed.
 Theorem C12_free_cleans : forall pool o, Forall (fun o => clean o = true) pool -> Forall (fun o => clean o = true) (free_vstruct pool o).
 Proof. exact free_vstruct_clean. Qed.
+Print Assumptions C12_free_cleans.
 Print Assumptions C12_pooled_object_fresh.
 
 (* any history of calls (a sequential history is one interleaving): what the next call reads from
